@@ -443,7 +443,7 @@ func ConvertJsonValueToTv(d any, slt *sdcpb.SchemaLeafType) (*sdcpb.TypedValue, 
 		}, nil
 	case "empty":
 		return &sdcpb.TypedValue{Value: &sdcpb.TypedValue_EmptyVal{EmptyVal: &emptypb.Empty{}}}, nil
-	case "bits":
+	case "bits", "binary":
 		return &sdcpb.TypedValue{
 			Value: &sdcpb.TypedValue_StringVal{StringVal: fmt.Sprintf("%v", d)},
 		}, nil
